@@ -8,6 +8,7 @@ import (
 	"regexp/syntax"
 	"sort"
 	"strings"
+	"time"
 
 	"golang.org/x/tools/go/ssa"
 )
@@ -22,8 +23,8 @@ type ecoFields struct {
 	e      *Eco
 	st     *types.Struct
 	prov   []*fieldProv
-	main   *regexInfo // the pattern that feeds most fields
-	leadG  []int      // leading numeric capture groups of main, in order
+	main   *regexInfo  // the pattern that feeds most fields
+	leadG  []int       // leading numeric capture groups of main, in order
 	fieldG map[int]int // field index -> smallest group index of main feeding it (0: none)
 }
 
@@ -755,4 +756,198 @@ func (p *Prog) regexSetOf(v ssa.Value) []*regexInfo {
 
 func init() {
 	register("C03", "", ruleKindGuard)
+}
+
+// ---- R-MARKER-PARSE: a pre-release marker leaves a trace in the parsed version ------------------------
+//
+// The constructor is evaluated abstractly with the submatch list of the version pattern as an abstract
+// value (element k ranges over the language of capture group k). For every capture group that is an
+// alternation of marker words, a successful world in which that group holds a pre-release marker must
+// build a version whose constant part differs from every version built without any marker: otherwise
+// Compare cannot tell them apart and the marker does not make the version older. This is what goes
+// wrong when a marker spelling the pattern accepts misses the constructor's word table (case folding).
+
+// markerWords: the literal alternatives of capture group k, case-folded (nil: not an alternation of words)
+func markerWords(re *syntax.Regexp, k int) []string {
+	g := findGroup(re, k)
+	if g == nil {
+		return nil
+	}
+	var out []string
+	var walk func(r *syntax.Regexp) bool
+	walk = func(r *syntax.Regexp) bool {
+		switch r.Op {
+		case syntax.OpCapture:
+			return walk(r.Sub[0])
+		case syntax.OpAlternate:
+			for _, s := range r.Sub {
+				if !walk(s) {
+					return false
+				}
+			}
+			return true
+		case syntax.OpLiteral:
+			out = append(out, strings.ToLower(string(r.Rune)))
+			return true
+		case syntax.OpConcat:
+			// factored alternation such as a(?:lpha)? is expanded by the finite-language helper
+			if lang, fin := reLanguage(r); fin {
+				for _, w := range lang {
+					out = append(out, strings.ToLower(w))
+				}
+				return true
+			}
+		case syntax.OpCharClass:
+			if lang, fin := reLanguage(r); fin {
+				for _, w := range lang {
+					out = append(out, strings.ToLower(w))
+				}
+				return true
+			}
+		}
+		return false
+	}
+	if !walk(g) {
+		return nil
+	}
+	return out
+}
+
+func ruleMarkerParse(p *Prog, r *Report) {
+	n := 0
+	for _, e := range p.Ecos {
+		ef := ecoFieldInfo(p, e)
+		if ef.main == nil {
+			continue
+		}
+		// marker groups of the main pattern
+		type mg struct {
+			k     int
+			words []string
+		}
+		var groups []mg
+		for k := 1; k <= ef.main.NumSub; k++ {
+			ws := markerWords(ef.main.Re, k)
+			pre := false
+			for _, w := range ws {
+				if classify(w) == -1 {
+					pre = true
+				}
+			}
+			if pre {
+				groups = append(groups, mg{k, ws})
+			}
+		}
+		if len(groups) == 0 {
+			continue
+		}
+		key := fmt.Sprintf("%s: a pre-release marker changes the parsed version", e.Name)
+		c := newAECtx(p)
+		c.stageMode = false
+		c.subModel = true
+		c.budget = 40 * time.Second
+		leaves, oof := c.tabulate(e.NewVer, paramArgs(e.NewVer))
+		if oof != "" {
+			r.Note("%s: constructor outside the evaluator's fragment (%s): accepted marker spellings are not decided by R-MARKER-PARSE", e.Name, oof)
+			continue
+		}
+		n++
+		// the submatch list of the main pattern
+		listKey := ""
+		for k, ri := range c.subOf {
+			if ri == ef.main {
+				listKey = k
+			}
+		}
+		if listKey == "" {
+			r.Note("%s: the version pattern's submatch list is not used by the constructor: R-MARKER-PARSE does not apply", e.Name)
+			continue
+		}
+		sig := func(v any) string {
+			s := renderAV(v)
+			// group-derived text is not part of the constant signature
+			for {
+				i := strings.Index(s, "{")
+				if i < 0 {
+					break
+				}
+				j := strings.Index(s[i:], "}")
+				if j < 0 {
+					break
+				}
+				s = s[:i] + "*" + s[i+j+1:]
+			}
+			return s
+		}
+		plain := map[string]bool{}
+		type mleaf struct {
+			word, sig, desc string
+			k               int
+			gap             bool
+		}
+		var marked []mleaf
+		for _, lf := range leaves {
+			t, ok := lf.res.(avTuple)
+			if !ok || len(t) != 2 {
+				continue
+			}
+			if _, isNil := t[1].(avNil); !isNil {
+				continue
+			}
+			nonEmpty := 0
+			var one mleaf
+			for _, g := range groups {
+				gk := fmt.Sprintf("%s[%d]", listKey, g.k)
+				v, has := lf.w.pos[posKey(gk, 0)]
+				if !has {
+					continue
+				}
+				if v%2 == 1 {
+					w := constant.StringVal(c.pools[gk][v/2])
+					if w == "" {
+						continue
+					}
+					nonEmpty++
+					one = mleaf{word: w, k: g.k}
+				} else {
+					nonEmpty++
+					one = mleaf{word: "(a spelling outside the constructor's tests)", k: g.k, gap: true}
+				}
+			}
+			s := sig(t[0])
+			switch nonEmpty {
+			case 0:
+				plain[s] = true
+			case 1:
+				one.sig, one.desc = s, lf.w.describe(c.pools, c.terms)
+				marked = append(marked, one)
+			}
+		}
+		var bad []string
+		checked := 0
+		for _, m := range marked {
+			if !m.gap && classify(strings.ToLower(m.word)) != -1 {
+				continue // post-release and neutral words may parse like the plain version
+			}
+			checked++
+			if plain[m.sig] {
+				bad = append(bad, fmt.Sprintf("group %d = %s builds a version whose constant part equals that of a version without any marker (%s): the marker cannot make it older [%s]", m.k, m.word, m.sig, m.desc))
+			}
+		}
+		switch {
+		case len(bad) > 0:
+			sort.Strings(bad)
+			r.Bad("R-MARKER-PARSE", key, p.FnPos(e.NewVer), fmt.Sprintf("%d abstract worlds, e.g. %s", len(bad), bad[0]))
+		case checked == 0 || len(plain) == 0:
+			r.Note("%s: no abstract world of the constructor has exactly one pre-release marker group set (%d marked, %d plain): R-MARKER-PARSE decides nothing here", e.Name, len(marked), len(plain))
+		default:
+			r.Ok("R-MARKER-PARSE", key, p.FnPos(e.NewVer), fmt.Sprintf("%d abstract worlds of the constructor with one pre-release marker group set: each builds a version whose constant part differs from all %d marker-free ones (%d worlds in all)", checked, len(plain), len(leaves)))
+		}
+	}
+	r.Floor("R-MARKER-PARSE", 1)
+	_ = n
+}
+
+func init() {
+	register("C03", "", ruleMarkerParse)
 }
